@@ -60,7 +60,7 @@ def min_required(tier):
 def history(rng, w, res, algo_cycle):
     ops = []
     k = 0
-    n = rng.randint(20, 60)
+    n = rng.randint(20, 60) if rng.random() < 0.9 else rng.randint(400, 900)     # (a few long lives of one instance)
     live = []
     requested_nondefault = False
     for _ in range(n):
